@@ -1376,7 +1376,8 @@ def run(ctx):
                 "same batch list object refilled in place, equal / hash-colliding / 1e-11-apart vectors; plus nested evaluations started "
                 "from inside the objective, compared design by design; "
                 "Algorithm.evaluate on batches with repeats and aliasing, repeated evaluate of the same batch, Evaluator.evaluate_scalar, "
-                "SweepAlgorithm over artap's generators), 1..3 objectives over minimise/maximise/undeclared, 0..2 constraints, cost modes %r, "
+                "SweepAlgorithm over artap's generators, and sweeps of a CustomGenerator whose sizes straddle the multiples of the inherited "
+                "option max_population_size: set to 1, 2, 3, 5, 8 or left at 100 with 99..102 and 199..202 designs), 1..3 objectives over minimise/maximise/undeclared, 0..2 constraints, cost modes %r, "
                 "vectors from a 15-value grid; a history is non-trivial when the objective was invoked more than once; distinct = distinct "
                 "(criteria, mode, constraints, operation kinds, outcome sequence, design sequence of the call log)") % (sorted(set(MODES)),)
     ctx.extra.update({"distribution": hist})
